@@ -254,6 +254,11 @@ impl<'a> TextExtractor<'a> {
                     // Unknown operators can be ignored if we are in a compat section.
                     if self.nested_compats > 0 {
                         args.clear();
+                        // the stream may end with such an operator
+                        ws.parse(buf)?;
+                        if buf.remaining() == 0 {
+                            break
+                        }
                         continue
                     }
                     let msg = format!(
